@@ -315,7 +315,7 @@ class Mini:
                     # an integer read from the bytes of a string literal (the byte-order probe): the host of the analysis is
                     # little-endian, like every target the library's swap routines treat as "nothing to do" for OASIS
                     w_ = {0xFF: 1, 0xFFFF: 2, 0xFFFFFFFF: 4}.get(_UMASK[(e.ct or e.t or '').replace('const ', '').strip()], 8)
-                    return int.from_bytes((bytes((0xFF if ord(ch_) > 0xFF else ord(ch_)) for ch_ in pv_) + b'\0' * 8)[:w_], 'little')     # (gx writes a byte that is not UTF-8 as U+FFFD)
+                    return int.from_bytes((bytes((0xFF if ord(ch_) > 0xFF else ord(ch_)) for ch_ in pv_) + b'\0' * 8)[:w_], 'big' if getattr(self, 'big_endian_host', False) else 'little')     # (gx writes a byte that is not UTF-8 as U+FFFD)
                 return self.load(pv_)
             if op == '&':
                 t = _strip_casts(e.child('sub'))
